@@ -523,6 +523,73 @@ func c17App(c *vc.Ctx, idx int) {
 	c.Count("withdrawal_addresses_through_the_application", len(want))
 }
 
+// c17Deposits: "accepted by deposit verification" taken at its word - real deposits. For EVM addresses at the edges of the
+// range (all zero, all ones, one, top bit) and random ones, the node is asked for the deposit address (and data output),
+// a Bitcoin transaction pays exactly what it handed out, the block is mined and voted, and the deposit is submitted for
+// that key and EVM address: every one of them must be credited.
+func c17Deposits(c *vc.Ctx, idx int) {
+	special := [][]byte{make([]byte, 20), bytes.Repeat([]byte{0xff}, 20), append(make([]byte, 19), 1), append([]byte{0x80}, make([]byte, 19)...), append(make([]byte, 10), bytes.Repeat([]byte{0xff}, 10)...)}
+	handed := 0
+	res, ok := depositProbe(c, idx, "c17dep", []int{4, 5, 6}, func(n int) []byte {
+		if n%2 == 0 {
+			return special[(n/2+idx)%len(special)]
+		}
+		return nil
+	}, func(b *bridgeHist, version uint32, evm []byte) ([][]byte, bool) {
+		var resp bitcointypes.QueryDepositAddressResponse
+		if err := b.lh.ch.Node().Query("/goat.bitcoin.v1.Query/DepositAddress", &bitcointypes.QueryDepositAddress{Version: version, EvmAddress: "0x" + hex.EncodeToString(evm)}, &resp); err != nil {
+			c.Violation("deposit address query failed for a supported combination", fmt.Sprintf("version %d evm %x: %v", version, evm, err), nil)
+			return nil, false
+		}
+		script, _, err := scriptOfAddress(resp.Address)
+		if err != nil {
+			c.Violation("deposit address from the query is not an address of the configured network", fmt.Sprintf("%s: %v", resp.Address, err), nil)
+			return nil, false
+		}
+		handed++
+		if version == 1 {
+			return [][]byte{script, resp.OpReturnScript}, true
+		}
+		return [][]byte{script}, true
+	})
+	accepted := 0
+	for _, r := range res {
+		c.Eval(1)
+		if r.code == 0 {
+			accepted++
+			c.Count("deposits_to_handed_out_addresses_credited", 1)
+		}
+		c.Nontrivial("deposit to a handed-out address: version=%d evm-class=%s credited=%v", r.d.Version, evmClass(r.d.Evm), r.code == 0)
+	}
+	c.Count("deposit_addresses_handed_out_for_real_deposits", handed)
+	if !ok || accepted == 0 {
+		if len(res) > 0 && accepted == 0 {
+			c.Inconclusive("no deposit of the probe was credited (first answer: %s)", res[0].log)
+		}
+		return
+	}
+	for _, r := range res {
+		if r.code != 0 {
+			c.Violation("a deposit to the address the node handed out was refused by deposit verification", fmt.Sprintf("version %d, EVM address %x (%s): %s; %d other deposits of the probe were credited", r.d.Version, r.d.Evm, evmClass(r.d.Evm), errClass(r.log), accepted),
+				map[string]any{"evm": hex.EncodeToString(r.d.Evm), "version": r.d.Version, "log": r.log})
+		}
+	}
+}
+
+func evmClass(e []byte) string {
+	switch {
+	case bytes.Equal(e, make([]byte, 20)):
+		return "all-zero"
+	case bytes.Equal(e, bytes.Repeat([]byte{0xff}, 20)):
+		return "all-ones"
+	case bytes.Equal(e[:19], make([]byte, 19)):
+		return "small"
+	case bytes.Equal(e[1:], make([]byte, 19)):
+		return "top-byte-only"
+	}
+	return "ordinary"
+}
+
 func init() {
 	const pureBatches = 8
 	vc.Register(&vc.Check{
@@ -531,15 +598,18 @@ func init() {
 			"cases 8-15: address strings with ground truth (P2PKH/P2SH/P2WPKH/P2WSH/P2TR on all 4 networks, bech32/bech32m mix-ups, checksum mutations, mixed case, short programs, pay-to-pubkey hex, junk) against DecodeBtcAddress: exact hand-built script or refusal; foreign = other bech32 prefix or other base58 version byte. " +
 			"cases 16-23: the same through the application on each network and key type: Query/DepositAddress answers verified, withdrawal requests end pending or cancelled with exactly one refund. Non-trivial = every judged address; distinct = (kind, network, verdict).",
 		Assume: []string{"btcutil's bech32/base58 codecs and btcec are correct (used to generate and to take apart address strings)", "all-uppercase bech32 strings are standard spellings (BIP173) and must decode; future witness versions are not judged"},
-		Cases:  func(tier string) int { return 24 },
+		Cases:  func(tier string) int { return 24 + map[string]int{"quick": 4, "thorough": 16}[tier] },
 		Run: func(c *vc.Ctx, i int) {
 			switch {
 			case i < pureBatches:
 				c17RoundTrip(c, i)
 			case i < 2*pureBatches:
 				c17Decode(c, i-pureBatches)
-			default:
+			case i < 3*pureBatches:
 				c17App(c, i-2*pureBatches)
+			default:
+				// real deposits to addresses the node handed out (EVM addresses at the edges of the range among them)
+				c17Deposits(c, i-3*pureBatches)
 			}
 		},
 	})
